@@ -1444,7 +1444,16 @@ fn verify_upgrade(
     }
     let extra = &upgrade.additional_nodes;
 
-    iter.seek(changeset.roots[changeset.roots.len() - 1].index);
+    let last_root_index = match changeset.roots.last() {
+        Some(root) => root.index,
+        None => {
+            // An upgrade to length zero: there is nothing to verify a signature against.
+            return Err(HypercoreError::InvalidOperation {
+                context: "Invalid upgrade, no roots".to_string(),
+            });
+        }
+    };
+    iter.seek(last_root_index);
     i = 0;
 
     while i < extra.len() && extra[i].index == iter.sibling() {
